@@ -9,6 +9,9 @@
 //     sub  : SUKF measurement_sub_size (ignored by the other classes)
 //     optional trailing token reps=<r>: r successive correct() calls on the same object (fresh belief each
 //     time), the scripts being consumed across the calls
+//     or ep=<e0>/<e1>/...: one correct() call per epoch on the same object; during epoch i the methods named in
+//     e_i (e.g. `no`, `mepr`, `-` = none) answer "unavailable" however often -- or whether at all -- they are asked
+//     (sis-*: one epoch per filtering step; <steps> must equal the number of epochs)
 //   -> r0:<label>:<calls>:<same|modified> r1:...
 //     label: pred     corrected belief identical bit-for-bit, every field, to the predicted one
 //            full     identical to a twin object with an all-valid model (same data, same seed)
@@ -70,9 +73,20 @@ struct Data12 {
 // ---------------------------------------------------------------- the script
 struct Script {
     std::vector<bool> v[6]; size_t pos[6] = {0, 0, 0, 0, 0, 0};
+    // epoch mode: availability is a state of the model during one correct() call / filtering step
+    // (the same answer however often -- or whether at all -- the method is asked)
+    std::vector<std::vector<bool>> epochs; bool epoch = false; bool unavail[6] = {false, false, false, false, false, false};
     std::vector<std::string> log;
     static const char* name(int i) { static const char* nm[6] = {"fz", "me", "pr", "in", "no", "li"}; return nm[i]; }
-    bool answer(int i) { bool a = pos[i] < v[i].size() ? (bool)v[i][pos[i]] : true; ++pos[i]; log.push_back(std::string(name(i)) + (a ? "1" : "0")); return a; }
+    void begin(long rep) {
+        if (epochs.empty()) return;
+        epoch = true;
+        for (int i = 0; i < 6; ++i) unavail[i] = rep < (long)epochs.size() ? (bool)epochs[rep][i] : false;
+    }
+    bool answer(int i) {
+        bool a = epoch ? !unavail[i] : (pos[i] < v[i].size() ? (bool)v[i][pos[i]] : true);
+        ++pos[i]; log.push_back(std::string(name(i)) + (a ? "1" : "0")); return a;
+    }
     std::string take_log() { std::string s; for (auto& e : log) { if (!s.empty()) s += ","; s += e; } log.clear(); return s.empty() ? "-" : s; }
 };
 enum { FZ = 0, ME = 1, PR = 2, IN = 3, NO = 4, LI = 5 };
@@ -197,6 +211,7 @@ static std::string gauss_case(const std::string& cls, uint64_t seed, const Data1
     Rng r(seed ^ 0x55aa);
     Out o;
     for (long rep = 0; rep < reps; ++rep) {
+        s->begin(rep);
         GaussianMixture pred(k, n), in(k, n), out(k, n), ref(k, n);
         fillGM(pred, r); in = pred;
         poisonGM(out); poisonGM(ref);
@@ -217,6 +232,7 @@ static std::string glik_case(uint64_t seed, const Data12& d, std::shared_ptr<Scr
     Rng r(seed ^ 0x55aa);
     Out o;
     for (long rep = 0; rep < reps; ++rep) {
+        s->begin(rep);
         MatrixXd states(d.n, d.k); for (long j = 0; j < d.k; ++j) for (long i = 0; i < d.n; ++i) states(i, j) = r.dy(4.0);
         bool v, v2; VectorXd val, val2;
         std::tie(v, val) = l.likelihood(mm, states);
@@ -247,6 +263,7 @@ static std::string part_case(const std::string& cls, uint64_t seed, const Data12
     Rng r(seed ^ 0x55aa);
     Out o;
     for (long rep = 0; rep < reps; ++rep) {
+        s->begin(rep);
         ParticleSet pred(k, n), in(k, n), out(k, n), ref(k, n), refp(k, n);
         fillPS(pred, r); in = pred;
         poisonPS(out); poisonPS(ref); poisonPS(refp);
@@ -273,7 +290,7 @@ struct HSIS : public SIS {
         : SIS(N, n, std::unique_ptr<ParticleSetInitialization>(new HInit(seed)), std::move(p), std::move(c), std::unique_ptr<Resampling>(new Resampling(1))),
           steps_(steps), twin_(std::move(twin)), s_(s) {}
     bool run_condition() override { return step_number() < steps_; }
-    void filtering_step() override { g_step = (long)step_number() + 1; s_->log.clear(); SIS::filtering_step(); }
+    void filtering_step() override { g_step = (long)step_number() + 1; s_->log.clear(); s_->begin((long)step_number()); SIS::filtering_step(); }
     // SIS::filtering_step calls log() right after the correction phase, before resampling
     void log() override {
         long k = pred_particle_.components, n = pred_particle_.dim;
@@ -313,7 +330,26 @@ static std::string fault_case(Toks& t) {
     if (n < 1 || n > 6 || m < 1 || m > 6 || k < 1 || k > 8 || sub < 1 || sub > 8) throw vh::BadArgs("size");
     std::shared_ptr<Script> s(new Script()); parse_scripts(t, *s);
     long reps = 1;
-    if (!t.empty()) { std::string rt = t.tok(); if (rt.compare(0, 5, "reps=") != 0) throw vh::BadArgs("reps"); reps = std::atol(rt.c_str() + 5); }
+    if (!t.empty()) {
+        std::string rt = t.tok();
+        if (rt.compare(0, 5, "reps=") == 0) reps = std::atol(rt.c_str() + 5);
+        else if (rt.compare(0, 3, "ep=") == 0) {
+            // ep=<e0>/<e1>/...   e = '-' or a concatenation of method codes unavailable during that call
+            std::string rest = rt.substr(3); size_t a = 0;
+            while (true) {
+                size_t b = rest.find('/', a); std::string e = rest.substr(a, b == std::string::npos ? std::string::npos : b - a);
+                std::vector<bool> un(6, false);
+                if (e != "-") {
+                    if (e.empty() || e.size() % 2) throw vh::BadArgs("ep:" + e);
+                    for (size_t i = 0; i < e.size(); i += 2) { int f = -1; for (int j = 0; j < 6; ++j) if (e.substr(i, 2) == Script::name(j)) f = j; if (f < 0) throw vh::BadArgs("ep:" + e); un[f] = true; }
+                }
+                s->epochs.push_back(un);
+                if (b == std::string::npos) break;
+                a = b + 1;
+            }
+            reps = (long)s->epochs.size();
+        } else throw vh::BadArgs("reps");
+    }
     t.done();
     if (reps < 1 || reps > 8) throw vh::BadArgs("reps");
     Data12 d(seed, n, m, k);
